@@ -246,3 +246,10 @@ Example C11_example :
   | _, _ => False
   end.
 Proof. vm_compute. repeat split; discriminate. Qed.
+
+(* "a text argument of to_string / to_pretty_string is returned as it is": for EVERY text that parses (such a text is valid
+   UTF-8 as a whole, C02_parsed_text_is_utf8, so String::from_utf8_lossy leaves it alone) *)
+Theorem C11_to_string_returns_a_text_argument_as_it_is : forall pf pretty t v,
+  is_jsonb t = false -> parse_value t = Ok v -> to_text_w pf pretty t = Ok t.
+Proof. exact to_text_of_parsed_text. Qed.
+Print Assumptions C11_to_string_returns_a_text_argument_as_it_is.
